@@ -14,6 +14,8 @@ GROUPS_IOS = {
     "GNC": ["10.0.0.0 0.0.1.3"],
     "GD": ["10.1.0.0 0.0.0.255"],
     "GGAP": ["10.2.0.0 0.0.0.3", "10.2.0.252 0.0.0.3"],
+    "GEDGE": ["10.3.0.0 0.0.0.255", "10.3.2.0 0.0.0.255"],
+    "GALL3": ["10.3.0.0 0.0.0.255", "10.3.1.0 0.0.0.255", "10.3.2.0 0.0.0.255"],
     "EMPTY": [],
 }
 GROUPS_NXOS = {
@@ -23,6 +25,8 @@ GROUPS_NXOS = {
     "GNC": ["10.0.0.0 0.0.1.3"],
     "GD": ["10.1.0.0/24"],
     "GGAP": ["10.2.0.0/30", "10.2.0.252/30"],
+    "GEDGE": ["10.3.0.0/24", "10.3.2.0/24"],
+    "GALL3": ["10.3.0.0/24", "10.3.1.0/24", "10.3.2.0/24"],
     "EMPTY": [],
 }
 
@@ -45,6 +49,10 @@ ACES_IOS = [
     "permit ip object-group G3 object-group GD", "permit ip host 10.0.0.1 host 10.0.0.1", "permit ip host 10.0.0.1 10.1.0.0 0.0.0.255", "permit ip object-group G1 object-group G2",
     # a group whose members leave a gap, and a network that starts in one member and ends in the other
     "permit ip object-group GGAP any", "permit ip 10.2.0.0 0.0.0.255 any", "permit ip 10.2.0.0 0.0.0.3 any",
+    # a bottom group whose lowest and highest members are covered by the top group, the middle one is not
+    "permit ip object-group GEDGE any", "permit ip object-group GALL3 any",
+    # TCP flags written after a log keyword
+    "permit tcp any any log syn", "permit tcp any any ack log rst",
     # wildcards with many non-contiguous bits and a lowest mask bit of 0 (256 networks), hosts inside and outside them
     "permit ip 10.0.0.1 0.0.255.0 any", "permit ip host 10.0.5.1 any", "permit ip host 10.0.5.2 any", "permit ip 10.0.0.0 0.0.4.0 any",
     "permit ip 10.0.0.0 128.0.0.255 any", "permit ip 138.0.0.0 0.0.0.255 any", "permit ip 10.0.0.0 0.0.1.0 any", "permit ip 10.0.1.0 0.0.0.0 any",
